@@ -457,8 +457,36 @@ def item_preselect(repo, out):
                     raise TranslateError('datasources: preselect step set is %s' % _u(t.values[1].comparators[0]))
     if keys is None or steps is None or not all(isinstance(k, str) for k in keys):
         raise TranslateError('datasources: preselect validation not found')
+    # the validation must be the very first thing __init__ does (before the telstate, the chunk store or the
+    # preselection are touched), whatever the other arguments are: order of its statements as an interpreted program
+    body = [n for n in init.body if not (isinstance(n, ast.Expr) and isinstance(n.value, ast.Constant))]
+    prog = []
+    for n in body:
+        if isinstance(n, ast.If) and _u(n.test) == 'preselectisNone' and [_u(x) for x in n.body] == ['preselect={}'] \
+                and not n.orelse:
+            prog.append(0)
+        elif isinstance(n, ast.Assign) and _u(n.targets[0]) == 'unexpected':
+            prog.append(1)
+        elif isinstance(n, ast.If) and _u(n.test) == 'unexpected':
+            if not prog or prog[-1] != 1:
+                raise TranslateError('datasources: `if unexpected:` does not follow the assignment of `unexpected`')
+        elif isinstance(n, ast.For) and _u(n.iter) == 'preselect.items()':
+            prog.append(2)
+        else:
+            break
+    if sorted(prog) != [0, 1, 2] or prog[0] != 0:
+        raise TranslateError('datasources: preselect validation is not the first thing __init__ does (found %s)' % prog)
+    sig = init.args
+    names = [a.arg for a in sig.args]
+    dflt = dict(zip(names[len(names) - len(sig.defaults):], [_u(d) for d in sig.defaults]))
+    if dflt.get('preselect') != 'None' or dflt.get('chunk_store') != 'None' or dflt.get('timestamps') != 'None' \
+            or sig.kwarg is None:
+        raise TranslateError('datasources: TelstateDataSource.__init__ defaults are %s' % dflt)
     out.append('Definition preselect_keys : list string := [%s].' % '; '.join(coq_string(k) for k in keys))
     out.append('Definition preselect_steps : list (option Z) := [%s].' % '; '.join(steps))
+    out.append('(* opcodes: 0 preselect := {} if None | 1 unknown keys -> IndexError | 2 per item: not a slice / step not '
+               'allowed -> IndexError; these are the first statements of TelstateDataSource.__init__ *)')
+    out.append('Definition gen_ds_validate_prog : list Z := [%s].' % '; '.join(coq_Z(c) for c in prog))
 
 
 # --------------------------------------------------------------------------- SpectralWindow
@@ -568,7 +596,12 @@ def item_spw(repo, out):
     init = _func(cls, '__init__', rel)
     _plain_args(init, SPW_PARAMS, 'SpectralWindow.__init__')
     dflt = [_u(d) for d in init.args.defaults]
-    if dflt != ['None', '-1', "'L'", 'None']:
+    try:
+        dvals = [ast.literal_eval(d) for d in init.args.defaults]
+    except ValueError:
+        raise TranslateError('spectral_window: __init__ defaults are %s' % dflt)
+    if len(dvals) != 4 or dvals[0] is not None or dvals[3] is not None or type(dvals[1]) is not int \
+            or type(dvals[2]) is not str:
         raise TranslateError('spectral_window: __init__ defaults are %s' % dflt)
     first = init.body[1] if isinstance(init.body[0], ast.Expr) else init.body[0]
     if not (isinstance(first, ast.If) and _u(first.test) == 'bandwidthisNone' and len(first.body) == 1
@@ -594,6 +627,21 @@ def item_spw(repo, out):
     want['self._channel_freqs'] = 'self._channel_freqs=None'
     if stored != want:
         raise TranslateError('spectral_window: __init__ stores %s' % sorted(stored.values()))
+    # product / band: stored once, unconditionally; a missing product becomes the empty string
+    names_stored = {}
+    for n, names in _stores(cls):
+        for x in names:
+            if x in ('self.product', 'self.band'):
+                if n not in init.body or x in names_stored:
+                    raise TranslateError('spectral_window: %s stored outside __init__ / conditionally / twice' % x)
+                names_stored[x] = n
+    if set(names_stored) != {'self.product', 'self.band'} or _u(names_stored['self.band']) != 'self.band=band':
+        raise TranslateError('spectral_window: product / band are not stored as expected')
+    pv = names_stored['self.product'].value
+    if not (isinstance(pv, ast.IfExp) and _u(pv.test) == 'productisnotNone' and _u(pv.body) == 'product'
+            and isinstance(pv.orelse, ast.Constant) and isinstance(pv.orelse.value, str)):
+        raise TranslateError('spectral_window: self.product is %s' % _u(pv))
+    product_none = pv.orelse.value
     # ---- no other method may write the attributes
     for fn in cls.body:
         if isinstance(fn, ast.FunctionDef) and fn.name not in ('__init__', 'channel_freqs'):
@@ -638,6 +686,9 @@ def item_spw(repo, out):
                % (OPS, SPW_SELF_BINDERS, res, sub_code))
     out.append('Definition gen_spw_rechannelise %s %s (num_chans : Z) : %s :=\n  %s.'
                % (OPS, SPW_SELF_BINDERS, res, rec_code))
+    out.append('Definition gen_spw_default_sideband : Z := %s.' % coq_Z(dvals[1]))
+    out.append('Definition gen_spw_default_band : string := %s.' % coq_string(dvals[2]))
+    out.append('Definition gen_spw_product_of_none : string := %s.' % coq_string(product_none))
 
 
 # --------------------------------------------------------------------------- VisibilityDataV4.__init__: frequency axis
@@ -696,6 +747,249 @@ def item_v4_freq(repo, out):
         '(%s, %s)' % (coq_string(k), coq_string(keys[k])) for k in ('num_chans', 'bandwidth', 'centre_freq')))
     out.append('Definition gen_v4_channel_width %s (bandwidth : A) (num_chans : Z) : A := %s.' % (OPS, cw))
     out.append('Definition gen_v4_sideband : Z := %s.' % sb[1])
+    # the channel-count fallback: its test and what it puts in place of the centre frequency
+    ftest = fb[0].test
+    if not (isinstance(ftest, ast.BoolOp) and isinstance(ftest.op, ast.And) and len(ftest.values) == 2
+            and _u(ftest.values[0]) == 'source.data'):
+        raise TranslateError('visdatav4: channel-count fallback test is %s' % _u(ftest))
+    ft = tx(ftest.values[1], {'spw.num_chans': ('Z', 'spw_num_chans'), 'source.data.shape[1]': ('Z', 'data_num_chans')},
+            'v4 fallback test')
+    if ft[0] != 'B':
+        raise TranslateError('visdatav4: channel-count fallback test is not a comparison')
+    fc = _coerce(tx(seq[9].value, {}, 'v4 fallback centre'), 'Q', 'v4 fallback centre')
+    if [_u(x) for x in fb[0].body if isinstance(x, ast.Assign)] != [texts[8], texts[9], texts[10]]:
+        raise TranslateError('visdatav4: channel-count fallback assigns %s' % [_u(x) for x in fb[0].body])
+    out.append('Definition gen_v4_fallback_test (spw_num_chans data_num_chans : Z) : bool := %s.' % ft[1])
+    out.append('Definition gen_v4_fallback_centre %s : A := %s.' % (OPS, fc))
+    # product and band handed to the SpectralWindow
+    single = {}
+    for n, names in _stores(init):
+        for x in names:
+            if x in ('product', 'band', 'band_map'):
+                if n not in init.body or x in single:
+                    raise TranslateError('visdatav4: %s assigned conditionally / twice' % x)
+                single[x] = n
+    if set(single) != {'product', 'band', 'band_map'} or \
+            not all(init.body.index(single[x]) < init.body.index(seq[5]) for x in single):
+        raise TranslateError('visdatav4: product / band / band_map not assigned before the spectral window is built')
+    pv = single['product'].value
+    if not (isinstance(pv, ast.Call) and _u(pv.func) == 'attrs.get' and len(pv.args) == 2 and not pv.keywords
+            and all(isinstance(a, ast.Constant) and isinstance(a.value, str) for a in pv.args)):
+        raise TranslateError('visdatav4: product is %s' % _u(pv))
+    bv = single['band'].value
+    if not (isinstance(bv, ast.Subscript) and _u(bv.value) == 'attrs' and isinstance(bv.slice, ast.Constant)
+            and isinstance(bv.slice.value, str)):
+        raise TranslateError('visdatav4: band is %s' % _u(bv))
+    mv = single['band_map'].value
+    if not (isinstance(mv, ast.Call) and _u(mv.func) == 'dict' and not mv.args
+            and all(k.arg and isinstance(k.value, ast.Constant) and isinstance(k.value.value, str) for k in mv.keywords)):
+        raise TranslateError('visdatav4: band_map is %s' % _u(mv))
+    out.append('Definition gen_v4_product_attr : string := %s.' % coq_string(pv.args[0].value))
+    out.append('Definition gen_v4_product_default : string := %s.' % coq_string(pv.args[1].value))
+    out.append('Definition gen_v4_band_attr : string := %s.' % coq_string(bv.slice.value))
+    out.append('Definition gen_v4_band_map : list (string * string) := [%s].' % '; '.join(
+        '(%s, %s)' % (coq_string(k.arg), coq_string(k.value.value)) for k in mv.keywords))
 
 
-ITEMS = [item_fix_rule, item_v4_time, item_ds_time, item_preselect, item_spw, item_v4_freq]
+# --------------------------------------------------------------------------- preselect -> chunk store index
+
+def item_ds_index(repo, out):
+    """TelstateDataSource.__init__: how the preselection becomes the index handed to ChunkStoreVisFlagsWeights, and that
+    ChunkStoreVisFlagsWeights applies that index to every array."""
+    init = _ds_init(repo)
+    blk = [n for n in init.body if isinstance(n, ast.If) and _u(n.test) == 'chunk_storeisNone']
+    if len(blk) != 1 or [_u(x) for x in blk[0].body] != ['data=None']:
+        raise TranslateError('datasources: `if chunk_store is None: data = None else: ...` not found')
+    els = blk[0].orelse
+    pre = [n for n in els if isinstance(n, ast.If) and _u(n.test) == 'preselect']
+    if len(pre) != 1 or len(pre[0].body) != 1 or [_u(x) for x in pre[0].orelse] != ['index=()']:
+        raise TranslateError('datasources: `if preselect: index = (...) else: index = ()` not found')
+    a = pre[0].body[0]
+    if not (isinstance(a, ast.Assign) and _u(a.targets[0]) == 'index' and isinstance(a.value, ast.Tuple)):
+        raise TranslateError('datasources: preselect index is %s' % _u(a))
+    axes = []
+    for e in a.value.elts:
+        if not (isinstance(e, ast.Call) and _u(e.func) == 'preselect.get' and len(e.args) == 2 and not e.keywords
+                and isinstance(e.args[0], ast.Constant) and isinstance(e.args[0].value, str)
+                and _u(e.args[1]) == 'np.s_[:]'):
+            raise TranslateError('datasources: preselect index element is %s' % _u(e))
+        axes.append(e.args[0].value)
+    for n, names in _stores(init):
+        if 'index' in names and n not in (a, pre[0].orelse[0]):
+            raise TranslateError('datasources: index also assigned by %s' % _u(n)[:80])
+    calls = [n for n in ast.walk(init) if isinstance(n, ast.Call) and _u(n.func) == 'ChunkStoreVisFlagsWeights']
+    if len(calls) != 1 or [k.arg for k in calls[0].keywords if _u(k.value) == 'index'] != ['preselect_index'] \
+            or [_u(x) for x in calls[0].args] != ['chunk_store', 'chunk_info']:
+        raise TranslateError('datasources: ChunkStoreVisFlagsWeights(chunk_store, chunk_info, ..., preselect_index=index) not found')
+    asg = [n for n in els if isinstance(n, ast.Assign) and _u(n.targets[0]) == 'data']
+    if len(asg) != 1 or asg[0].value is not calls[0] or els.index(pre[0]) > els.index(asg[0]):
+        raise TranslateError('datasources: data = ChunkStoreVisFlagsWeights(...) not after the index')
+    rel = 'katdal/vis_flags_weights.py'
+    vinit = _func(_class(_parse(repo, rel), 'ChunkStoreVisFlagsWeights', rel), '__init__', rel)
+    vnames = [x.arg for x in vinit.args.args]
+    vd = dict(zip(vnames[len(vnames) - len(vinit.args.defaults):], [_u(d) for d in vinit.args.defaults]))
+    if vd.get('preselect_index') != '()':
+        raise TranslateError('vis_flags_weights: preselect_index default is %s' % vd.get('preselect_index'))
+    for n, names in _stores(vinit):
+        if 'preselect_index' in names:
+            raise TranslateError('vis_flags_weights: preselect_index is rebound')
+    gets = [n for n in ast.walk(vinit) if isinstance(n, ast.Call) and _u(n.func) == 'store.get_dask_array']
+    loops = [n for n in vinit.body if isinstance(n, ast.For) and _u(n.iter) == 'chunk_info.items()']
+    if len(gets) != 1 or len(loops) != 1 or gets[0] not in list(ast.walk(loops[0])) \
+            or [k.arg for k in gets[0].keywords if _u(k.value) == 'preselect_index'] != ['index'] \
+            or [_u(x) for x in gets[0].args] != ['array_name', "info['chunks']", "info['dtype']"]:
+        raise TranslateError('vis_flags_weights: get_dask_array(array_name, chunks, dtype, index=preselect_index, ...) '
+                             'is not called once per array')
+    out.append('(* preselect_index = (preselect.get(axis, np.s_[:]) for axis in gen_ds_index_axes) if preselect else (); '
+               'applied to every array by ChunkStoreVisFlagsWeights *)')
+    out.append('Definition gen_ds_index_axes : list string := [%s].' % '; '.join(coq_string(x) for x in axes))
+
+
+# --------------------------------------------------------------------------- katdal.open
+
+def item_open(repo, out):
+    """katdal.open: which preselect keys a list of files admits, that other formats refuse preselect, and that
+    time_offset / preselect reach both the data source and VisibilityDataV4."""
+    rel = 'katdal/__init__.py'
+    fn = _func(_parse(repo, rel), 'open', rel)
+    a = fn.args
+    if [x.arg for x in a.args] != ['filename', 'ref_ant', 'time_offset'] or a.kwarg is None or a.kwarg.arg != 'kwargs' \
+            or a.vararg or a.kwonlyargs or len(a.defaults) != 2:
+        raise TranslateError('katdal.open: parameters are %s' % ast.unparse(a))
+    toff = tx(a.defaults[1], {}, 'open time_offset default')
+    body = [n for n in fn.body if not (isinstance(n, ast.Expr) and isinstance(n.value, ast.Constant))]
+    if len(body) != 4 or not isinstance(body[0], ast.If) or _u(body[0].test) != 'isinstance(filename,str)' \
+            or [_u(x) for x in body[0].body] != ['filenames=[filename]'] or _u(body[1]) != 'datasets=[]' \
+            or not isinstance(body[2], ast.For) or _u(body[2].iter) != 'filenames' or _u(body[2].target) != 'f' \
+            or _u(body[3]) != 'returndatasets[0]ifisinstance(filename,str)elseConcatenatedDataSet(datasets)':
+        raise TranslateError('katdal.open: body not of the expected shape')
+    els = body[0].orelse
+    if len(els) != 3 or _u(els[2]) != 'filenames=filename' or not isinstance(els[0], ast.Assign) \
+            or _u(els[0].targets[0]) != 'unexpected' or not isinstance(els[1], ast.If) or _u(els[1].test) != 'unexpected' \
+            or len(els[1].body) != 1 or not isinstance(els[1].body[0], ast.Raise) \
+            or not _u(els[1].body[0].exc).startswith('IndexError(') or els[1].orelse:
+        raise TranslateError('katdal.open: list branch not of the expected shape')
+    v = els[0].value
+    if not (isinstance(v, ast.BinOp) and isinstance(v.op, ast.Sub) and isinstance(v.right, ast.Set)
+            and _u(v.left) == "set(kwargs.get('preselect',{}))"):
+        raise TranslateError('katdal.open: list branch tests %s' % _u(v))
+    keys = sorted(ast.literal_eval(v.right))
+    if not all(isinstance(k, str) for k in keys):
+        raise TranslateError('katdal.open: list branch keys are %s' % keys)
+    loop = body[2].body
+    ifs = [n for n in loop if isinstance(n, ast.If)]
+    if len(ifs) != 1 or _u(ifs[0].test) != "parsed.path.endswith('.rdb')orparsed.scheme!=''" \
+            or _u(loop[-1]) != 'datasets.append(dataset)' or loop.index(ifs[0]) != len(loop) - 2:
+        raise TranslateError('katdal.open: loop body not of the expected shape')
+    if [_u(x) for x in ifs[0].body] != \
+            ['dataset=VisibilityDataV4(open_data_source(f,**kwargs),ref_ant,time_offset,**kwargs)']:
+        raise TranslateError('katdal.open: v4 branch is %s' % [_u(x) for x in ifs[0].body])
+    oth = ifs[0].orelse
+    if len(oth) != 2 or not isinstance(oth[0], ast.If) or _u(oth[0].test) != "'preselect'inkwargs" \
+            or len(oth[0].body) != 1 or not isinstance(oth[0].body[0], ast.Raise) \
+            or not _u(oth[0].body[0].exc).startswith('TypeError(') or oth[0].orelse \
+            or _u(oth[1]) != "dataset=_file_action('__call__',f,ref_ant,time_offset,**kwargs)":
+        raise TranslateError('katdal.open: other-format branch not of the expected shape')
+    for n, names in _stores(fn):
+        if any(x in ('kwargs', 'time_offset', 'ref_ant') for x in names):
+            raise TranslateError('katdal.open: %s rebinds an argument' % _u(n)[:80])
+    # open_data_source -> TelstateDataSource.from_url -> cls(..., **kwargs)
+    rel2 = 'katdal/datasources.py'
+    tree = _parse(repo, rel2)
+    ods = _func(tree, 'open_data_source', rel2)
+    if 'returnTelstateDataSource.from_url(url,**kwargs)' not in [_u(n) for n in ast.walk(ods) if isinstance(n, ast.Return)]:
+        raise TranslateError('datasources: open_data_source does not return TelstateDataSource.from_url(url, **kwargs)')
+    fu = _func(_class(tree, 'TelstateDataSource', rel2), 'from_url', rel2)
+    rets = [_u(n) for n in ast.walk(fu) if isinstance(n, ast.Return)]
+    if rets != ['returncls(telstate,capture_block_id,stream_name,chunk_store,url=url_parts.geturl(),**kwargs)']:
+        raise TranslateError('datasources: from_url returns %s' % rets)
+    for n, names in _stores(fu):
+        if 'kwargs' in names and _u(n) != 'kwargs=url_kwargs':
+            raise TranslateError('datasources: from_url rebinds kwargs: %s' % _u(n)[:80])
+    pops = sorted(_u(n) for n in ast.walk(fu) if isinstance(n, ast.Call) and _u(n.func) in ('kwargs.pop', 'url_kwargs.pop'))
+    if pops != ["kwargs.pop('capture_block_id',None)", "kwargs.pop('db','0')", "kwargs.pop('stream_name',None)"]:
+        raise TranslateError('datasources: from_url pops %s' % pops)
+    v4i = _v4_init(repo)
+    names = [x.arg for x in v4i.args.args]
+    vd = dict(zip(names[len(names) - len(v4i.args.defaults):], v4i.args.defaults))
+    if names[:4] != ['self', 'source', 'ref_ant', 'time_offset'] or _u(vd['preselect']) != 'None' or v4i.args.kwarg is None:
+        raise TranslateError('visdatav4: __init__ parameters are %s' % names)
+    toff4 = tx(vd['time_offset'], {}, 'v4 time_offset default')
+    if 'DataSet.__init__(self,source.name,ref_ant,time_offset,source.url)' not in [_u(n) for n in v4i.body]:
+        raise TranslateError('visdatav4: DataSet.__init__(self, source.name, ref_ant, time_offset, source.url) not found')
+    out.append('Definition open_concat_keys : list string := [%s].' % '; '.join(coq_string(k) for k in keys))
+    out.append('Definition gen_open_default_time_offset %s : A := %s.' % (OPS, _coerce(toff, 'Q', 'open time_offset')))
+    out.append('Definition gen_v4_default_time_offset %s : A := %s.' % (OPS, _coerce(toff4, 'Q', 'v4 time_offset')))
+
+
+# --------------------------------------------------------------------------- _cbf_attrs
+
+def item_cbf_attrs(repo, out):
+    """visdatav4._cbf_attrs: the chain of telstate lookups that yields the CBF dump period, as an interpreted program;
+    and the exceptions VisibilityDataV4.__init__ turns into `no CBF attributes` (a "lite" RDB)."""
+    rel = 'katdal/visdatav4.py'
+    tree = _parse(repo, rel)
+    fn = _func(tree, '_cbf_attrs', rel)
+    _plain_args(fn, ['attrs'], '_cbf_attrs')
+    if fn.decorator_list:
+        raise TranslateError('visdatav4: _cbf_attrs is decorated')
+    body = [n for n in fn.body if not (isinstance(n, ast.Expr) and isinstance(n.value, ast.Constant))]
+    steps = []
+    known = set()
+    for n in body[:-1]:
+        if not (isinstance(n, ast.Assign) and len(n.targets) == 1 and isinstance(n.targets[0], ast.Name)):
+            raise TranslateError('visdatav4: _cbf_attrs statement %s' % _u(n)[:80])
+        v = n.value
+        first = False
+        if isinstance(v, ast.Subscript) and isinstance(v.slice, ast.Constant) and v.slice.value == 0 \
+                and isinstance(v.value, ast.Subscript):
+            first = True
+            v = v.value
+        if not (isinstance(v, ast.Subscript) and _u(v.value) == 'attrs'):
+            raise TranslateError('visdatav4: _cbf_attrs lookup %s' % _u(n)[:80])
+        k = v.slice
+        if isinstance(k, ast.Constant) and isinstance(k.value, str):
+            base, key = None, k.value
+        elif isinstance(k, ast.BinOp) and isinstance(k.op, ast.Add) and isinstance(k.left, ast.Name) \
+                and k.left.id in known and isinstance(k.right, ast.Constant) and isinstance(k.right.value, str):
+            base, key = k.left.id, k.right.value
+        else:
+            raise TranslateError('visdatav4: _cbf_attrs key %s' % _u(k)[:80])
+        if n.targets[0].id in known:
+            raise TranslateError('visdatav4: _cbf_attrs assigns %s twice' % n.targets[0].id)
+        known.add(n.targets[0].id)
+        steps.append((n.targets[0].id, base, key, first))
+    ret = body[-1]
+    if not (isinstance(ret, ast.Return) and isinstance(ret.value, ast.Tuple)
+            and all(isinstance(e, ast.Name) and e.id in known for e in ret.value.elts)):
+        raise TranslateError('visdatav4: _cbf_attrs returns %s' % _u(ret)[:80])
+    result = [e.id for e in ret.value.elts]
+    # the caller: try: (self.cbf_dump_period, ...) = _cbf_attrs(attrs) except (KeyError, IndexError): ... = None
+    init = _v4_init(repo)
+    tries = [n for n in init.body if isinstance(n, ast.Try) and '_cbf_attrs' in _u(n)]
+    if len(tries) != 1 or len(tries[0].body) != 1 or len(tries[0].handlers) != 1 or tries[0].finalbody:
+        raise TranslateError('visdatav4: try / except around _cbf_attrs not as expected')
+    call = tries[0].body[0]
+    if not (isinstance(call, ast.Assign) and isinstance(call.targets[0], ast.Tuple) and _u(call.value) == '_cbf_attrs(attrs)'
+            and _u(call.targets[0].elts[0]) == 'self.cbf_dump_period' and len(call.targets[0].elts) == len(result)):
+        raise TranslateError('visdatav4: call of _cbf_attrs is %s' % _u(call)[:100])
+    h = tries[0].handlers[0]
+    if h.type is None:
+        raise TranslateError('visdatav4: bare except around _cbf_attrs')
+    excs = [_u(e) for e in (h.type.elts if isinstance(h.type, ast.Tuple) else [h.type])]
+    if 'self.cbf_dump_period=self.accumulations_per_dump=None' not in [_u(x) for x in h.body]:
+        raise TranslateError('visdatav4: except branch does not clear cbf_dump_period')
+    calls = [n for n in ast.walk(tree) if isinstance(n, ast.Call) and _u(n.func) == '_cbf_attrs']
+    if len(calls) != 1:
+        raise TranslateError('visdatav4: _cbf_attrs called %d times' % len(calls))
+    out.append('Inductive cbf_step := CbfStep (target : string) (base : option string) (key : string) (first : bool).')
+    out.append('(* target = attrs[base + key] (or attrs[key]), [0] of it when first *)')
+    out.append('Definition gen_cbf_prog : list cbf_step := [%s].' % '; '.join(
+        'CbfStep %s %s %s %s' % (coq_string(t), 'None' if b is None else '(Some %s)' % coq_string(b), coq_string(k),
+                                 'true' if f else 'false') for t, b, k, f in steps))
+    out.append('Definition gen_cbf_result : list string := [%s].' % '; '.join(coq_string(r) for r in result))
+    out.append('Definition gen_cbf_lite_exceptions : list string := [%s].' % '; '.join(coq_string(e) for e in sorted(excs)))
+
+
+ITEMS = [item_fix_rule, item_v4_time, item_ds_time, item_preselect, item_spw, item_v4_freq, item_ds_index, item_open,
+         item_cbf_attrs]
